@@ -21,6 +21,14 @@ func init() {
 			tc.YieldPoint()
 		}
 	}
+	pongo2.VerifHot = func() {
+		if tearingDown.Load() {
+			return
+		}
+		if tc := running.Load(); tc != nil {
+			tc.HotPoint()
+		}
+	}
 	pongo2.VerifNoYield = func(delta int) {
 		if tc := CurrentTask(); tc != nil {
 			tc.noYield += delta
